@@ -57,6 +57,16 @@ type Lemma struct {
 	Bounded  string     // non-empty: the lemma is a bounded stand-in (text = the bound)
 	Tier     string     // "thorough": only checked in the thorough tier
 	NoRead   []string   // heap fields the unfolded functions must not read (read-frame obligation)
+	Closures []ClosureDecl
+	Assumed  string // non-empty: not proved here; used as an axiom and listed as an assumption (text = why)
+}
+
+// ClosureDecl binds a name to a closure of the package with symbolic captured variables:
+//   closure less = SortVersions$1(vs []Version, vers map[VersionKey]*semver.Version)
+type ClosureDecl struct {
+	Name string
+	Fn   string
+	Free []VarDecl
 }
 
 type KnownCarve struct {
@@ -75,6 +85,7 @@ type FuncSpec struct {
 	Requires []string
 	Ensures  []string
 	Modifies []string
+	Reads    []string // heap keys the (pure) function may read; used to frame opaque applications
 	Loops    map[int]*LoopSpec
 	Props    []string
 	Pure     bool
@@ -121,6 +132,9 @@ func LoadSpecs(dir, pkgPath, pkgName string) (*Specs, error) {
 	sp.Lines = len(lines)
 	qual := func(n string) string {
 		n = strings.TrimSpace(n)
+		if strings.HasPrefix(n, "::") {
+			return n[2:] // fully qualified name of a function in another package
+		}
 		if strings.HasPrefix(n, pkgName+".") {
 			return n
 		}
@@ -132,7 +146,7 @@ func LoadSpecs(dir, pkgPath, pkgName string) (*Specs, error) {
 	var last *string // for continuation lines
 	keywords := map[string]bool{"opaque": true, "pred": true, "lemma": true, "vars": true, "unfold": true, "requires": true, "ensures": true,
 		"export": true, "property": true, "func": true, "known": true, "loop": true, "invariant": true, "decreases": true, "modifies": true,
-		"pure": true, "trusted": true, "assert": true, "pattern": true, "uses": true, "noinst": true, "bitvector": true, "split": true, "bounded": true, "tier": true, "noread": true}
+		"pure": true, "trusted": true, "assert": true, "pattern": true, "uses": true, "noinst": true, "bitvector": true, "split": true, "bounded": true, "tier": true, "noread": true, "closure": true, "assumed": true, "reads": true}
 	for ln, l := range lines {
 		f := strings.Fields(l)
 		if len(f) == 0 {
@@ -202,6 +216,40 @@ func LoadSpecs(dir, pkgPath, pkgName string) (*Specs, error) {
 		case "split":
 			if curL != nil {
 				curL.Splits = append(curL.Splits, splitTop(rest, '|'))
+			}
+		case "assumed":
+			if curL != nil {
+				curL.Assumed = rest
+				if rest == "" {
+					curL.Assumed = "assumed"
+				}
+				curL.Export = true
+			}
+		case "closure":
+			if curL != nil {
+				// closure NAME = FN(decls)
+				eqi := strings.Index(rest, "=")
+				pj := strings.LastIndex(rest, ")")
+				pi := -1
+				for d, q := 0, pj; q >= 0; q-- {
+					if rest[q] == ')' {
+						d++
+					} else if rest[q] == '(' {
+						d--
+						if d == 0 {
+							pi = q
+							break
+						}
+					}
+				}
+				if eqi < 0 || pi < eqi || pj < 0 {
+					return nil, fmt.Errorf("%s: bad closure declaration %q", sp.File, l)
+				}
+				free, err := parseVarDecls(rest[pi+1 : pj])
+				if err != nil {
+					return nil, err
+				}
+				curL.Closures = append(curL.Closures, ClosureDecl{Name: strings.TrimSpace(rest[:eqi]), Fn: qual(strings.TrimSpace(rest[eqi+1 : pi])), Free: free})
 			}
 		case "noread":
 			if curL != nil {
@@ -287,6 +335,10 @@ func LoadSpecs(dir, pkgPath, pkgName string) (*Specs, error) {
 				if len(curF.Modifies) == 0 {
 					curF.Modifies = []string{}
 				}
+			}
+		case "reads":
+			if curF != nil {
+				curF.Reads = append(curF.Reads, strings.Fields(strings.ReplaceAll(rest, ",", " "))...)
 			}
 		case "pure":
 			if curF != nil {
